@@ -3,6 +3,7 @@ import Zc.Proofs.Packetize
 import Zc.Proofs.Transmit
 import Zc.Proofs.RespScope
 import Zc.GenFacts.FnRegistry
+import Zc.GenFacts.FnResponderRun
 /-! # C03 — the responder answers exactly what is registered, minus what the querier knows
 
 Model: `Zc.Registry` (`_services/registry.py`, with the D3 repair), `Zc.Svc` (the record builders and memo
@@ -425,7 +426,11 @@ theorem C03_known_on_wire_partial (unscopes : Bool → Bool) {reg : Registry} (h
     rw [hk] at hs hc
     exact ⟨hs, hc⟩
 
-/-- the working tree is one of the two (whichever: the statement builds on both) -/
+/-- the working tree is one of the two — **whichever**: this is a disjunction that is true of a tree with and of a tree without the
+repair, it does not say which one `/repo` is.  That `/repo` (7c87afc and later) is the repaired one rests on the two translated leaves
+(`own_known_unscoped`: the test `msg.scope_id is not None` exists in `async_response`; `own_known_passed`: `own_known_answers` is an
+argument of the `_answer_question` call — they pin neither the body of `_without_scope_id` nor how `own_known_answers` is built) and
+on stream 1 of the harness, which parses queries with scope ids None / 3 / 0 and diffs the replies against `respondQ treeUnscopes`. -/
 theorem C03_tree_unscopes : (∀ b, treeUnscopes b = b) ∨ (∀ b, treeUnscopes b = false) := by
   first
     | (left; intro b; cases b <;> rfl)
@@ -537,7 +542,16 @@ theorem C03_transmitted_current_refuted : ¬ C03_transmitted_current id 4500 := 
 * attribute writes come as `update`, as in `C03_transmitted_current`)
 every datagram ever sent consists of records of services registered at that instant.  The proof shows that the records
 `async_unregister_service` purges (`purgeMap`: PTR, SRV, TXT, and the address/NSEC set of an unshared host) are gone from every
-pending reply — without the D5 purge the theorem is false.  Missing for full strength: exactly the three recorded findings. -/
+pending reply — without the D5 purge the theorem is false.
+**What the hypothesis excludes, precisely** (it is *not* just the complement of the three findings): (1) the input classes of D20,
+D20b and D20c, operation by operation; (2) **every history that contains an attribute write** (`changeOk (.mutate …) = false`: in this
+layer a write followed by `async_update_service` has to be given as one `update` with the new fields — a reply computed *between* a
+write and its update, from a stale memo, is not covered); (3) nothing else — but the layer itself is narrower than the code in one
+more respect: `HostOp.unregister` carries keys and `RHost.unregisterOne` purges the **registered** object's records, i.e. the call
+through the registered object or an equal copy; `async_unregister_service` handed a `ServiceInfo` whose records differ purges and says
+goodbye with the handle's records (finding R3-C03-a), which this model cannot express.  No harness drives this layer (`RHost`): it
+is an abstraction of the two multicast queues, tied to the code only by the comparison of its ingredients (`respond`, `packetize`,
+the registry) in stream 1; the implementation's datagrams around an update/unregister are judged by the oracle directly. -/
 theorem C03_transmitted_current_partial (ops : List HostOp) (hq : noSupersededReplyQueued lower ettl {} ops = true) :
     ∀ o ∈ (RHost.run lower ettl ops).2, Sent.current lower ettl o = true :=
   runFrom_spec lower ettl ops (PendInv.init lower ettl) hq
@@ -571,13 +585,29 @@ example :
 
 /-! ## Tie: the source of `_services/registry.py`, translated statement by statement on every run
 
+**What "translated" covers, precisely** (`tools/fnspecs/_common.py`, spec type `Svc`): control flow, dict/list operations and their
+raise sites (`KeyError`, `ValueError`, `ServiceNameAlreadyRegistered`) are translated from the method bodies; four things about the
+`ServiceInfo` argument are *substituted*, not translated: `info.key` ↦ `lower info.name`, `info.server_key` ↦ `lower info.server`,
+`info.async_clear_cache()` ↦ `Svc.clearMemo`, and — because `Svc.server` is a `String` — the two statements
+`assert info.server_key is not None` of `_add` / `_remove` ↦ `pyAssert true` (they can never fail in the generated functions).  So the
+equation below is about `ServiceInfo` objects whose `key` / `server_key` are what `ServiceInfo.__init__` derives (`name.lower()`,
+`server.lower()`) and that have a server: a `server_key` that is not `server.lower()` (seeded defect C03-w4-seed2) or a server-less
+object reaching `registry.async_update` (which raises *after* `_remove`, leaving the removed state — whereas `gstep` keeps the state
+before a call that raises) are invisible to `C03_registry_is_source` by construction; both are the harness's (stream 1 compares
+`server_key`-keyed dumps; the API path of the second is repaired by 55cb5cf, D26).
+
 `Zc.GenFn.Registry` is regenerated from the *bodies* of all methods of `ServiceRegistry` (`tools/gen_fn.py`);
 `GenFacts/FnRegistry.lean` proves, method by method and under the representation invariant `RInv` (which every mutator
 preserves), that the hand-written `Registry` model above computes what those bodies compute.  **What this transports**: each
 registry operation of the model is the translated body, along every sequence of calls (`C03_registry_is_source`), plus the two
 component facts restated below over the generated functions; an edit of a method body that changes what it computes breaks a named
-lemma of `FnRegistry` at stage P.  **What it does not**: the answering theorems of this file (`respond`, the host runs over `HostOp`: API calls, queries, transmissions) are about
-hand-written callers of the registry; they are not re-proved over the generated functions. -/
+lemma of `FnRegistry` at stage P.  **The responder over the translated readers** (`GenFacts/FnResponderRun.lean`): `respond` reads the registry only in
+`_get_answer_strategies` (type index, server index, services dict, list of types); `respondG` is `respond` with those four reads being the
+translated `async_get_infos_type`, `async_get_infos_server`, `async_get_info_name`, `async_get_types` on the generated object, and
+`respondG_eq` proves it computes the model's answers under `RInv`.  Hence `C03_answers_sound_source`, `C03_answers_complete_source`
+and, along every history of API calls on a fresh generated registry, `C03_history_source`.
+**What it does not**: strategy selection and `_answer_question` themselves are hand-written models around the translated readers; the
+memo warming of `respond` (its second component) and the host runs over `HostOp` (transmissions) are not restated. -/
 section Tie
 open Zc.Py Zc.GenFn.Registry Zc.GenFacts.FnRegistry
 
@@ -619,6 +649,52 @@ example :
         = some [{ exX with name := "z._a._tcp.local." }]
     ∧ (gRun id [.add exX, .add exX, .remove [exX]]).has_entries = false := by
   decide
+
+open Zc.GenFacts.FnResponderRun in
+/-- **C03_answers_sound, for the responder over the translated registry readers** -/
+theorem C03_answers_sound_source (s : ServiceRegistry) (hinv : RInv lower s) (hi : IndexInv lower (absR s)) (hm : AllFresh lower (absR s))
+    (msgs : List Msg) {d : DictRS} (h : respondG lower ettl s msgs = .ok (some d)) :
+    ∀ a ∈ keysOf d, RespSpec.soundAnswer lower ettl s.async_get_service_infos (questionsOf msgs) (knownOf msgs) a = true := by
+  rw [respondG_eq lower ettl s hinv] at h
+  cases hr : respond lower ettl (absR s) msgs with
+  | error e => rw [hr] at h; cases h
+  | ok p =>
+    rw [hr] at h
+    simp only [Except.map, Except.ok.injEq] at h
+    have hr' : respond lower ettl (absR s) msgs = .ok (some d, p.2) := by rw [hr, ← h]
+    exact C03_answers_sound lower ettl hi hm msgs hr'
+
+open Zc.GenFacts.FnResponderRun in
+/-- **C03_answers_complete, for the responder over the translated registry readers** -/
+theorem C03_answers_complete_source (s : ServiceRegistry) (hinv : RInv lower s) (hi : IndexInv lower (absR s)) (hm : AllFresh lower (absR s))
+    (msgs : List Msg) {o : Option DictRS} (h : respondG lower ettl s msgs = .ok o) :
+    RespSpec.complete lower ettl s.async_get_service_infos (questionsOf msgs) (knownOf msgs) ((o.getD []).map (·.1)) = true := by
+  rw [respondG_eq lower ettl s hinv] at h
+  cases hr : respond lower ettl (absR s) msgs with
+  | error e => rw [hr] at h; cases h
+  | ok p =>
+    rw [hr] at h
+    simp only [Except.map, Except.ok.injEq] at h
+    have hr' : respond lower ettl (absR s) msgs = .ok (o, p.2) := by rw [hr, ← h]
+    exact C03_answers_complete lower ettl hi hm msgs hr'
+
+open Zc.GenFacts.FnResponderRun in
+/-- **C03_history, for the translated code**: after any history of `async_add` / `async_remove` / `async_update` calls on a fresh
+generated registry (no pending attribute write), the responder over its translated readers computes a reply without an exception;
+every answer is exactly a record of a currently registered service that answers a question and is not known above half its TTL, every
+such record is offered, and the additionals belong to the service owning their answer -/
+theorem C03_history_source (ops : List ROp) (msgs : List Msg) (hclean : dirty lower (ops.map (toRegOp lower)) = []) :
+    ∃ o, respondG lower ettl (gRun lower ops) msgs = .ok o
+      ∧ (∀ a ∈ (o.getD []).map (·.1),
+            RespSpec.soundAnswer lower ettl (RegSpec.run lower (ops.map (toRegOp lower))) (questionsOf msgs) (knownOf msgs) a = true)
+      ∧ RespSpec.completePerService lower ettl (RegSpec.run lower (ops.map (toRegOp lower))) (questionsOf msgs) (knownOf msgs)
+          ((o.getD []).map (·.1)) = true
+      ∧ (∀ p ∈ o.getD [], RespSpec.additionalsOk lower ettl (RegSpec.run lower (ops.map (toRegOp lower))) p = true) := by
+  obtain ⟨ha, hinv⟩ := gRun_eq lower ettl ops
+  obtain ⟨o, reg', hr, h1, h2, h3⟩ := C03_history lower ettl (ops.map (toRegOp lower)) msgs hclean
+  refine ⟨o, ?_, h1, h2, h3⟩
+  rw [respondG_eq lower ettl _ hinv, ha, hr]
+  rfl
 
 end Tie
 
